@@ -19,6 +19,10 @@ Lemma Qabs_diff_tri (a b c : Q) : Qabs (a - c) <= Qabs (a - b) + Qabs (b - c).
 Proof. setoid_replace (a - c) with ((a - b) + (b - c)) by ring. apply Qabs_triangle. Qed.
 Lemma Qabs_self0 (a : Q) : Qabs (a - a) == 0.
 Proof. setoid_replace (a - a) with 0 by ring. reflexivity. Qed.
+Lemma Qabs_le_eq (a b r : Q) : a == b -> Qabs b <= r -> Qabs a <= r.
+Proof. intros E H. rewrite E. exact H. Qed.
+Lemma Qabs_zero_le (a r : Q) : a == 0 -> 0 <= r -> Qabs a <= r.
+Proof. intros E H. rewrite E. cbn. exact H. Qed.
 
 (* ---- multiset relation ---- *)
 Lemma Forall2_refl {A} (R : A -> A -> Prop) : (forall x, R x x) -> forall l, Forall2 R l l.
@@ -217,7 +221,7 @@ Proof.
     apply andb_true_iff in Hxy as [H1 H2]. split; apply q_within_true; assumption.
 Qed.
 Theorem timeline_closeb_sound r e a b : timeline_closeb r e a b = true -> timeline_close r e a b.
-Proof. intro H. apply timeline_close_by_const. apply timeline_close_byb_sound. exact H. Qed.
+Proof. intro H. apply (proj1 (timeline_close_by_const r e a b)). apply timeline_close_byb_sound. exact H. Qed.
 
 (* what a `true` of the runner's spec means *)
 Theorem c09_timeline_ok_sound fa fb slack e src tgt :
@@ -248,3 +252,489 @@ Qed.
 (* millisecond formats: the pair resolution of two millisecond formats is 1 ms + slack *)
 Theorem res_pair_ms tempo slack t : res_pair FOsu FQua tempo slack t == 1 + slack /\ res_pair FO2j FQua tempo slack t == 1 + slack.
 Proof. unfold res_pair, res_of. rewrite !Qred_correct. split; reflexivity. Qed.
+
+(* ================================================================== Part 2: the adapters *)
+(* equality up to row order is closeness 0 *)
+Lemma timeline_close_of_perm ns ns' tp tp' :
+  Permutation ns ns' -> Permutation tp tp' -> timeline_close 0 0 (mkTL ns tp) (mkTL ns' tp').
+Proof.
+  intros P1 P2.
+  apply (timeline_close_perm 0 0 (mkTL ns tp) (mkTL ns tp) (mkTL ns tp) (mkTL ns' tp')); cbn; auto.
+  apply timeline_close_refl; lra.
+Qed.
+
+(* ---- osu: the denotation lists up to row order ---- *)
+Theorem tl_of_osu_perm d d' :
+  Permutation (OsuSpec.d_hits d) (OsuSpec.d_hits d') -> Permutation (OsuSpec.d_holds d) (OsuSpec.d_holds d') ->
+  Permutation (OsuSpec.d_bpms d) (OsuSpec.d_bpms d') -> timeline_close 0 0 (tl_of_osu d) (tl_of_osu d').
+Proof.
+  intros P1 P2 P3. unfold tl_of_osu. apply timeline_close_of_perm.
+  - apply Permutation_app; apply Permutation_map; assumption.
+  - apply Permutation_map; assumption.
+Qed.
+
+(* ---- StepMania ---- *)
+Theorem tl_of_sm_perm d d' c c' :
+  Permutation (SMSpec.d_notes c) (SMSpec.d_notes c') -> Permutation (SMSpec.d_tempo d) (SMSpec.d_tempo d') ->
+  timeline_close 0 0 (tl_of_sm_chart d c) (tl_of_sm_chart d' c').
+Proof.
+  intros P1 P2. unfold tl_of_sm_chart. apply timeline_close_of_perm.
+  - clear P2. induction P1; cbn; auto.
+    + apply Permutation_app_head; assumption.
+    + rewrite !app_assoc. apply Permutation_app_tail. apply Permutation_app_comm.
+    + eapply Permutation_trans; eassumption.
+  - apply Permutation_map; assumption.
+Qed.
+
+(* ---- BMS ---- *)
+Theorem tl_of_bms_perm d d' :
+  Permutation (BMSSpec.d_hits d) (BMSSpec.d_hits d') -> Permutation (BMSSpec.d_holds d) (BMSSpec.d_holds d') ->
+  Permutation (BMSSpec.d_tempo d) (BMSSpec.d_tempo d') -> timeline_close 0 0 (tl_of_bms d) (tl_of_bms d').
+Proof.
+  intros P1 P2 P3. unfold tl_of_bms. apply timeline_close_of_perm.
+  - apply Permutation_app; apply Permutation_map; assumption.
+  - exact P3.
+Qed.
+
+(* ---- Quaver: the specification's own closeness (C06: every time moved by less than 1 ms) ---- *)
+Lemma qua_note_close_tn x y : QuaSpec.note_close x y -> note_close 1 (tn_of_qua x) (tn_of_qua y).
+Proof.
+  intros [L [S [E _]]]. unfold tn_of_qua.
+  destruct (QuaSpec.n_end x) as [ex|], (QuaSpec.n_end y) as [ey|]; try contradiction;
+    unfold note_close, tn_end; cbn [tn_hold tn_col tn_time tn_len]; repeat split; try congruence; try lra.
+  - apply (Qabs_le_eq _ (ex - ey)); [ring | lra].
+  - apply (Qabs_le_eq _ (QuaSpec.n_start x - QuaSpec.n_start y)); [ring | lra].
+Qed.
+Lemma qua_pt_close_tp (x y : Q * Q) : QuaSpec.pt_close x y -> tempo_close 1 0 x y.
+Proof.
+  intros [T V]. split; [lra|]. apply Qabs_zero_le; [rewrite V; ring | lra].
+Qed.
+Theorem tl_of_qua_close e a : QuaSpec.den_close e a -> timeline_close 1 0 (tl_of_qua e) (tl_of_qua a).
+Proof.
+  intros [N [B _]]. unfold tl_of_qua. split; cbn [tl_notes tl_tempo].
+  - eapply ms_rel_map; [|exact N]. exact qua_note_close_tn.
+  - eapply ms_rel_impl; [|exact B]. exact qua_pt_close_tp.
+Qed.
+(* ... and exact equality of denotations (den_eq: multisets, times by value) is closeness 0 *)
+Lemma oq_eqb_true a b : QuaSpec.oq_eqb a b = true -> match a, b with None, None => True | Some x, Some y => x == y | _, _ => False end.
+Proof. destruct a, b; cbn; intro H; auto; try discriminate. apply Qeq_bool_iff; exact H. Qed.
+Lemma qua_note_eqb_tn x y : QuaSpec.note_eqb x y = true -> note_close 0 (tn_of_qua x) (tn_of_qua y).
+Proof.
+  unfold QuaSpec.note_eqb. intro H. repeat (apply andb_true_iff in H as [H ?]).
+  apply Z.eqb_eq in H. apply Qeq_bool_iff in H2. apply oq_eqb_true in H1. unfold tn_of_qua.
+  destruct (QuaSpec.n_end x) as [ex|], (QuaSpec.n_end y) as [ey|]; try contradiction;
+    unfold note_close, tn_end; cbn [tn_hold tn_col tn_time tn_len]; repeat split; try congruence;
+    apply Qabs_zero_le; try lra; try (rewrite H2; ring); try (rewrite H1; ring).
+Qed.
+Theorem tl_of_qua_eq e a : QuaSpec.den_eq e a -> timeline_close 0 0 (tl_of_qua e) (tl_of_qua a).
+Proof.
+  intros [N [B _]]. unfold tl_of_qua. split; cbn [tl_notes tl_tempo].
+  - eapply ms_rel_map; [|exact N]. exact qua_note_eqb_tn.
+  - eapply ms_rel_impl; [|exact B]. intros x y H. unfold QuaSpec.pt_eqb in H. apply andb_true_iff in H as [H1 H2].
+    apply Qeq_bool_iff in H1, H2. split; (apply Qabs_zero_le; [|lra]); [rewrite H1 | rewrite H2]; ring.
+Qed.
+
+(* ---- O2Jam: the specification's closeness of one difficulty (C07: rows up to permutation, times within tol,
+        lengths within 2 tol) ---- *)
+Lemma o2j_q_close tol a b : O2JSpec.q_close tol a b = true -> Qabs (a - b) <= tol.
+Proof. unfold O2JSpec.q_close. intro H. apply Qle_bool_iff; exact H. Qed.
+Theorem tl_of_omap_close tol a b : 0 <= tol -> O2JSpec.map_matches tol a b ->
+  timeline_close (3 * tol) 0 (tl_of_omap a) (tl_of_omap b).
+Proof.
+  intros Ht [H [L B]]. unfold tl_of_omap. split; cbn [tl_notes tl_tempo].
+  - apply ms_rel_app.
+    + eapply ms_rel_map; [|exact H]. cbn beta. intros x y C. unfold O2JSpec.hit_close in C.
+      repeat (apply andb_true_iff in C as [C ?]). apply Z.eqb_eq in C. apply o2j_q_close in H2.
+      unfold note_close, tn_end; cbn [tn_hold tn_col tn_time tn_len]. repeat split; auto; [lra|].
+      apply (Qabs_le_eq _ (O2J.h_off x - O2J.h_off y)); [ring | lra].
+    + eapply ms_rel_map; [|exact L]. cbn beta. intros x y C. unfold O2JSpec.hold_close in C.
+      repeat (apply andb_true_iff in C as [C ?]). apply Z.eqb_eq in C. apply o2j_q_close in H3, H2.
+      unfold note_close, tn_end; cbn [tn_hold tn_col tn_time tn_len]. repeat split; auto; [lra|].
+      apply (Qabs_le_eq _ ((O2J.l_off x - O2J.l_off y) + (O2J.l_len x - O2J.l_len y))); [ring|].
+      pose proof (Qabs_triangle (O2J.l_off x - O2J.l_off y) (O2J.l_len x - O2J.l_len y)). lra.
+  - eapply ms_rel_map; [|exact B]. cbn beta. intros x y C. unfold O2JSpec.bpm_close in C. apply andb_true_iff in C as [C1 C2].
+    apply o2j_q_close in C1. apply Qeq_bool_iff in C2. split; cbn [fst snd]; [lra|].
+    apply Qabs_zero_le; [rewrite C2; ring | lra].
+Qed.
+(* ... and the form in which the byte-level reader theorem of C07 is stated (rows up to order, tempo rows equal) *)
+Theorem tl_of_omap_equiv a b :
+  Permutation (O2J.om_hits a) (O2J.om_hits b) -> Permutation (O2J.om_holds a) (O2J.om_holds b) -> O2J.om_bpms a = O2J.om_bpms b ->
+  timeline_close 0 0 (tl_of_omap a) (tl_of_omap b).
+Proof.
+  intros P1 P2 E. unfold tl_of_omap. rewrite E. apply timeline_close_of_perm.
+  - apply Permutation_app; apply Permutation_map; assumption.
+  - apply Permutation_refl.
+Qed.
+
+(* ================================================================== Part 3: O2Jam -> Quaver, end to end *)
+(* The pipeline as a composition of the three existing MODELS:
+     O2J.read_fixed            (C07: byte-level reader; proved = ojn_denote for every well-formed file)
+     Cast.cast                 (C08: ConvertBase.cast; proved exact for every source frame), with the mapping O2JToQua
+                               passes: offset / column (/ length), offset / bpm; every other declared field keeps its default
+     Qua.Live.write            (C06: QuaMap.write on YAML trees; proved well-formed and within 1 ms for every strict chart)
+   and the bridges between their data types (records of the O2Jam chart -> pandas frame -> Quaver's frame of YAML cells). *)
+From RV Require Import Frame.Frame Convert.Cast Generated.Tables Proofs.CastProofs Proofs.QuaProofs Proofs.O2JComposeProofs.
+Import O2J.
+
+Definition COL_VOLUME : Z := 60.  Definition COL_PAN : Z := 61.  Definition COL_KEYSOUNDS : Z := 50.
+
+(* the O2Jam lists as frames (row labels are irrelevant for cast: C08_labels_irrelevant) *)
+Definition fr_hits (hs : list hitrow) : Frame.frame :=
+  Frame.mkFrame [COL_OFFSET; COL_COLUMN; COL_VOLUME; COL_PAN]
+    (map (fun h => (0%Z, [CNum (h_off h); CNum (inject_Z (h_col h)); CNum (inject_Z (h_vol h)); CNum (inject_Z (h_pan h))])) hs).
+Definition fr_holds (ls : list holdrow) : Frame.frame :=
+  Frame.mkFrame [COL_OFFSET; COL_COLUMN; COL_LENGTH; COL_VOLUME; COL_PAN]
+    (map (fun h => (0%Z, [CNum (l_off h); CNum (inject_Z (l_col h)); CNum (l_len h); CNum (inject_Z (l_vol h)); CNum (inject_Z (l_pan h))])) ls).
+Definition fr_bpms (bs : list bpmrow) : Frame.frame :=
+  Frame.mkFrame [COL_OFFSET; COL_BPM] (map (fun b => (0%Z, [CNum (b_off b); CNum (b_bpm b)])) bs).
+
+(* the Quaver list classes: declared fields and their defaults (TimedList.empty) *)
+Definition QHIT_DECL := [COL_OFFSET; COL_COLUMN; COL_KEYSOUNDS].
+Definition QHIT_DFLT := [CNum 0; CNum 0; CList []].
+Definition QHOLD_DECL := [COL_OFFSET; COL_COLUMN; COL_LENGTH; COL_KEYSOUNDS].
+Definition QHOLD_DFLT := [CNum 0; CNum 0; CNum 0; CList []].
+Definition QBPM_DECL := [COL_OFFSET; COL_BPM; COL_METRONOME].
+Definition QBPM_DFLT := [CNum 0; CNum 120; CNum 4].
+(* the mappings O2JToQua.convert passes to cast *)
+Definition MAP_HIT := [(COL_OFFSET, FromCol COL_OFFSET); (COL_COLUMN, FromCol COL_COLUMN)].
+Definition MAP_HOLD := [(COL_OFFSET, FromCol COL_OFFSET); (COL_COLUMN, FromCol COL_COLUMN); (COL_LENGTH, FromCol COL_LENGTH)].
+Definition MAP_BPM := [(COL_OFFSET, FromCol COL_OFFSET); (COL_BPM, FromCol COL_BPM)].
+
+(* pandas frame -> Quaver's frame of YAML cells: field names; `column` is an integer column, the rest float; the only list
+   cell is the empty key-sound default *)
+Definition qname (c : Z) : Z :=
+  if (c =? COL_OFFSET)%Z then Qua.N_offset else if (c =? COL_COLUMN)%Z then Qua.N_column
+  else if (c =? COL_LENGTH)%Z then Qua.N_length else if (c =? COL_BPM)%Z then Qua.N_bpm
+  else if (c =? COL_METRONOME)%Z then Qua.N_metronome else if (c =? COL_KEYSOUNDS)%Z then Qua.N_keysounds else c.
+Definition qcell (c : Z) (v : cell) : Qua.ytree :=
+  match v with
+  | CNum q => if (c =? COL_COLUMN)%Z then Qua.YInt (Qfloor q) else Qua.YFloat q
+  | CList _ => Qua.YList []
+  | _ => Qua.YNaN
+  end.
+Definition qrow (cols : list Z) (r : Frame.row) : Qua.row := map (fun cv => (qname (fst cv), qcell (fst cv) (snd cv))) (combine cols r).
+Definition qframe (f : Frame.frame) : Qua.frame := Qua.mkFrame (map qname (fcols f)) (map (qrow (fcols f)) (abs_rows f)).
+
+(* O2JToQua.convert on one difficulty: three casts, an empty SV list, the metadata the converter sets *)
+Definition o2j_to_qua (meta : list Qua.ytree) (m : omap) : option Qua.chart :=
+  match cast (fr_hits (om_hits m)) QHIT_DECL QHIT_DFLT MAP_HIT, cast (fr_holds (om_holds m)) QHOLD_DECL QHOLD_DFLT MAP_HOLD,
+        cast (fr_bpms (om_bpms m)) QBPM_DECL QBPM_DFLT MAP_BPM with
+  | Some h, Some l, Some b =>
+      Some (Qua.mkChart (qframe h) (qframe l) (qframe b) (Qua.mkFrame [Qua.N_offset; Qua.N_multiplier] []) meta)
+  | _, _, _ => None
+  end.
+
+(* ---- cast, computed on lists of records ---- *)
+Lemma repeat_as_map {A B} (d : B) (l : list A) : repeat d (length l) = map (fun _ => d) l.
+Proof. induction l; cbn; congruence. Qed.
+Lemma set_col_rows_map {A} i (f : A -> cell) (g : A -> Frame.row) l : forall k,
+  set_col_rows i (map f l) (relabel k (map g l)) = relabel k (map (fun a => set_nth i (f a) (g a)) l).
+Proof. induction l as [|a l IH]; intro k; cbn; [reflexivity|]. rewrite IH. reflexivity. Qed.
+Lemma relabel_len k (l : list Frame.row) : length (relabel k l) = length l.
+Proof. revert k. induction l; intro k; cbn; auto. Qed.
+
+Lemma col_vals_map {A} cols (lab : A -> Z) (g : A -> Frame.row) l c i : col_index c cols = Some i ->
+  col_vals (Frame.mkFrame cols (map (fun a => (lab a, g a)) l)) c = Some (map (fun a => nth i (g a) CNaN) l).
+Proof.
+  intro H. unfold col_vals, abs_rows. cbn [fcols frows]. rewrite H. rewrite !map_map. reflexivity.
+Qed.
+Lemma set_col_map {A} k i (f : A -> cell) (g : A -> Frame.row) cols l : col_index k cols = Some i ->
+  set_col k (map f l) (Frame.mkFrame cols (relabel 0 (map g l)))
+  = Some (Frame.mkFrame cols (relabel 0 (map (fun a => set_nth i (f a) (g a)) l))).
+Proof.
+  intro H. unfold set_col, nrows. cbn [fcols frows]. rewrite H, relabel_len, !map_length, Nat.eqb_refl.
+  rewrite set_col_rows_map. reflexivity.
+Qed.
+Lemma empty_frame_map {A} declared defaults (l : list A) :
+  empty_frame declared defaults (length l) = Frame.mkFrame declared (relabel 0 (map (fun _ => defaults) l)).
+Proof. unfold empty_frame. rewrite repeat_as_map. reflexivity. Qed.
+
+Lemma cast_hits hs :
+  cast (fr_hits hs) QHIT_DECL QHIT_DFLT MAP_HIT
+  = Some (Frame.mkFrame QHIT_DECL (relabel 0 (map (fun h => [CNum (h_off h); CNum (inject_Z (h_col h)); CList []]) hs))).
+Proof.
+  unfold cast, fr_hits, nrows. cbn [frows]. rewrite map_length, empty_frame_map.
+  unfold MAP_HIT. cbn [apply_mapping].
+  rewrite (col_vals_map _ _ _ _ COL_OFFSET 0%nat) by reflexivity. rewrite (set_col_map COL_OFFSET 0%nat) by reflexivity.
+  rewrite (col_vals_map _ _ _ _ COL_COLUMN 1%nat) by reflexivity. rewrite (set_col_map COL_COLUMN 1%nat) by reflexivity.
+  reflexivity.
+Qed.
+Lemma cast_holds ls :
+  cast (fr_holds ls) QHOLD_DECL QHOLD_DFLT MAP_HOLD
+  = Some (Frame.mkFrame QHOLD_DECL
+            (relabel 0 (map (fun h => [CNum (l_off h); CNum (inject_Z (l_col h)); CNum (l_len h); CList []]) ls))).
+Proof.
+  unfold cast, fr_holds, nrows. cbn [frows]. rewrite map_length, empty_frame_map.
+  unfold MAP_HOLD. cbn [apply_mapping].
+  rewrite (col_vals_map _ _ _ _ COL_OFFSET 0%nat) by reflexivity. rewrite (set_col_map COL_OFFSET 0%nat) by reflexivity.
+  rewrite (col_vals_map _ _ _ _ COL_COLUMN 1%nat) by reflexivity. rewrite (set_col_map COL_COLUMN 1%nat) by reflexivity.
+  rewrite (col_vals_map _ _ _ _ COL_LENGTH 2%nat) by reflexivity. rewrite (set_col_map COL_LENGTH 2%nat) by reflexivity.
+  reflexivity.
+Qed.
+Lemma cast_bpms bs :
+  cast (fr_bpms bs) QBPM_DECL QBPM_DFLT MAP_BPM
+  = Some (Frame.mkFrame QBPM_DECL (relabel 0 (map (fun b => [CNum (b_off b); CNum (b_bpm b); CNum 4]) bs))).
+Proof.
+  unfold cast, fr_bpms, nrows. cbn [frows]. rewrite map_length, empty_frame_map.
+  unfold MAP_BPM. cbn [apply_mapping].
+  rewrite (col_vals_map _ _ _ _ COL_OFFSET 0%nat) by reflexivity. rewrite (set_col_map COL_OFFSET 0%nat) by reflexivity.
+  rewrite (col_vals_map _ _ _ _ COL_BPM 1%nat) by reflexivity. rewrite (set_col_map COL_BPM 1%nat) by reflexivity.
+  reflexivity.
+Qed.
+
+(* ---- the converted chart, explicitly ---- *)
+Import Qua QuaSpec.
+Definition q_hit_row (h : hitrow) : Qua.row :=
+  [(N_offset, YFloat (h_off h)); (N_column, YInt (h_col h)); (N_keysounds, YList [])].
+Definition q_hold_row (h : holdrow) : Qua.row :=
+  [(N_offset, YFloat (l_off h)); (N_column, YInt (l_col h)); (N_length, YFloat (l_len h)); (N_keysounds, YList [])].
+Definition q_bpm_row (b : bpmrow) : Qua.row :=
+  [(N_offset, YFloat (b_off b)); (N_bpm, YFloat (b_bpm b)); (N_metronome, YFloat 4)].
+Definition q_chart (meta : list ytree) (m : O2J.omap) : Qua.chart :=
+  Qua.mkChart (Qua.mkFrame [N_offset; N_column; N_keysounds] (map q_hit_row (om_hits m)))
+              (Qua.mkFrame [N_offset; N_column; N_length; N_keysounds] (map q_hold_row (om_holds m)))
+              (Qua.mkFrame [N_offset; N_bpm; N_metronome] (map q_bpm_row (om_bpms m)))
+              (Qua.mkFrame [N_offset; N_multiplier] []) meta.
+
+Lemma o2j_to_qua_explicit meta m : o2j_to_qua meta m = Some (q_chart meta m).
+Proof.
+  unfold o2j_to_qua. rewrite cast_hits, cast_holds, cast_bpms. unfold q_chart, qframe, abs_rows. cbn [fcols frows].
+  rewrite !relabel_snd, !map_map. f_equal. f_equal.
+  - f_equal. apply map_ext. intro h. unfold qrow, q_hit_row. cbn. rewrite ?Z.div_1_r. reflexivity.
+  - f_equal. apply map_ext. intro h. unfold qrow, q_hold_row. cbn. rewrite ?Z.div_1_r. reflexivity.
+Qed.
+
+(* ---- the converted chart is in the strict domain of the Quaver writer: this is the step "the reader's output satisfies
+        the writer's wf" of the composition ---- *)
+Lemma forallb_map_Forall {A B} (p : B -> bool) (g : A -> B) l : Forall (fun a => p (g a) = true) l -> forallb p (map g l) = true.
+Proof. induction 1; cbn; auto. rewrite H, IHForall. reflexivity. Qed.
+
+Lemma q_chart_wf meta m :
+  Forall (fun h => (0 <= h_col h)%Z) (om_hits m) -> Forall (fun h => (0 <= l_col h)%Z) (om_holds m) ->
+  meta_okb false meta = true -> wf_chartb false (q_chart meta m) = true.
+Proof.
+  intros Hh Hl Hm. unfold wf_chartb, q_chart. cbn [c_hits c_holds c_bpms c_svs c_meta]. rewrite Hm.
+  assert (A1: frame_okb (hit_decl false) false (Qua.mkFrame [N_offset; N_column; N_keysounds] (map q_hit_row (om_hits m))) = true).
+  { unfold frame_okb. cbn [f_cols f_rows]. apply andb_true_iff. split; [reflexivity|].
+    apply forallb_map_Forall. eapply Forall_impl; [|exact Hh]. intros h Hc. cbv beta in Hc. cbn.
+    unfold cell_col, lane_of. apply andb_true_iff. split; [|reflexivity]. apply Z.leb_le. lia. }
+  assert (A2: frame_okb (hold_decl false) false (Qua.mkFrame [N_offset; N_column; N_length; N_keysounds] (map q_hold_row (om_holds m))) = true).
+  { unfold frame_okb. cbn [f_cols f_rows]. apply andb_true_iff. split; [reflexivity|].
+    apply forallb_map_Forall. eapply Forall_impl; [|exact Hl]. intros h Hc. cbv beta in Hc. cbn.
+    unfold cell_col, lane_of. apply andb_true_iff. split; [|reflexivity]. apply Z.leb_le. lia. }
+  assert (A3: frame_okb bpm_decl false (Qua.mkFrame [N_offset; N_bpm; N_metronome] (map q_bpm_row (om_bpms m))) = true).
+  { unfold frame_okb. cbn [f_cols f_rows]. apply andb_true_iff. split; [reflexivity|].
+    apply forallb_map_Forall. apply Forall_forall. intros b _. reflexivity. }
+  rewrite A1, A2, A3. reflexivity.
+Qed.
+
+(* ---- what the converted chart denotes ---- *)
+Definition d_hit (h : hitrow) : noteD := QuaSpec.mkNote (h_col h + 1) (h_off h) None [].
+Definition d_hold (h : holdrow) : noteD := QuaSpec.mkNote (l_col h + 1) (l_off h) (Some (Qred (l_off h + l_len h))) [].
+Definition d_bpm (b : bpmrow) : Q * Q := (b_off b, b_bpm b).
+
+Lemma omap_map {A B C} (f : B -> option C) (g : A -> B) (h : A -> C) l : (forall a, f (g a) = Some (h a)) ->
+  Qua.omap f (map g l) = Some (map h l).
+Proof. intro H. induction l as [|a l IH]; cbn; [reflexivity|]. rewrite H, IH. reflexivity. Qed.
+
+Lemma q_chart_denote meta m : length meta = length ref_meta_table ->
+  chart_denote (q_chart meta m)
+  = Some (mkDen (map d_hit (om_hits m) ++ map d_hold (om_holds m)) (map d_bpm (om_bpms m)) [] (map Some meta)).
+Proof.
+  intro Hlen. unfold chart_denote, q_chart. cbn [c_hits c_holds c_bpms c_svs c_meta f_rows].
+  rewrite (omap_map hit_row_denote q_hit_row d_hit) by (intro; reflexivity).
+  rewrite (omap_map hold_row_denote q_hold_row d_hold) by (intro; reflexivity).
+  rewrite (omap_map (point_row_denote N_bpm) q_bpm_row d_bpm) by (intro; reflexivity).
+  cbn [Qua.omap]. rewrite Hlen, Nat.eqb_refl. reflexivity.
+Qed.
+
+Lemma ms_rel_of_Forall2 {A} (R : A -> A -> Prop) a b : Forall2 R a b -> ms_rel R a b.
+Proof. intro F. exists b. split; [apply Permutation_refl | exact F]. Qed.
+Lemma Forall2_map_same {A B} (R : B -> B -> Prop) (f g : A -> B) l : (forall a, R (f a) (g a)) -> Forall2 R (map f l) (map g l).
+Proof. intro H. induction l; cbn; constructor; auto. Qed.
+
+(* the timeline of that denotation is the timeline of the O2Jam difficulty *)
+Lemma tn_d_hit h : tn_of_qua (d_hit h) = mkTN false (h_col h + 1 - 1) (h_off h) 0.
+Proof. reflexivity. Qed.
+Lemma tn_d_hold h : tn_of_qua (d_hold h) = mkTN true (l_col h + 1 - 1) (l_off h) (Qred (l_off h + l_len h) - l_off h).
+Proof. reflexivity. Qed.
+Lemma q_chart_timeline meta m :
+  timeline_close 0 0 (tl_of_qua (mkDen (map d_hit (om_hits m) ++ map d_hold (om_holds m)) (map d_bpm (om_bpms m)) [] meta))
+                     (tl_of_omap m).
+Proof.
+  unfold tl_of_qua, tl_of_omap. cbn [QuaSpec.d_notes QuaSpec.d_bpms]. split; cbn [tl_notes tl_tempo].
+  - rewrite map_app, !map_map. apply ms_rel_app; apply ms_rel_of_Forall2; apply Forall2_map_same; intro h.
+    + rewrite tn_d_hit. unfold Timeline.note_close, tn_end; cbn [tn_hold tn_col tn_time tn_len].
+      repeat split; try lia; apply Qabs_zero_le; try lra; ring.
+    + rewrite tn_d_hold. unfold Timeline.note_close, tn_end; cbn [tn_hold tn_col tn_time tn_len].
+      repeat split; try lia; apply Qabs_zero_le; try lra; try ring. rewrite Qred_correct. ring.
+  - apply ms_rel_of_Forall2. apply Forall2_map_same. intro b. unfold d_bpm. split; cbn [fst snd];
+      apply Qabs_zero_le; try lra; ring.
+Qed.
+
+(* ---- the columns of a denoted O2Jam difficulty are the seven lanes ---- *)
+Lemma pair_col_cols time c evs : forall open,
+  Forall (fun h => h_col h = c) (fst (O2JSpec.pair_col time c evs open))
+  /\ Forall (fun h => l_col h = c) (snd (O2JSpec.pair_col time c evs open)).
+Proof.
+  induction evs as [|[[[p vol] pan] kind] r IH]; intro open; cbn [O2JSpec.pair_col]; [split; constructor|].
+  destruct (kind =? O2JSpec.ref_kind_tap)%Z.
+  { specialize (IH open). destruct (O2JSpec.pair_col time c r open) as [hs ls]. cbn in *. destruct IH. split; [constructor; auto | auto]. }
+  destruct (kind =? O2JSpec.ref_kind_head)%Z; [apply IH|].
+  destruct (kind =? O2JSpec.ref_kind_tail)%Z; [|apply IH].
+  destruct open as [[[hp hvol] hpan]|]; [|apply IH].
+  specialize (IH None). destruct (O2JSpec.pair_col time c r None) as [hs ls]. cbn in *. destruct IH. split; [auto | constructor; auto].
+Qed.
+
+Lemma denote_level_cols init pkgs md : O2JSpec.denote_level init pkgs = Some md ->
+  Forall (fun h => (0 <= h_col h)%Z) (om_hits md) /\ Forall (fun h => (0 <= l_col h)%Z) (om_holds md).
+Proof.
+  unfold O2JSpec.denote_level. destruct (all_some (map O2JSpec.pkg_tempos pkgs)) as [ts|]; [|discriminate].
+  intro H. injection H as <-. cbn [om_hits om_holds O2JSpec.columns map flat_map].
+  split; repeat (apply Forall_app; split); try apply Forall_nil.
+  all: first [ eapply Forall_impl; [|exact (proj1 (pair_col_cols _ _ _ None))]; cbv beta; intros h E; rewrite E; lia
+             | eapply Forall_impl; [|exact (proj2 (pair_col_cols _ _ _ None))]; cbv beta; intros h E; rewrite E; lia ].
+Qed.
+
+Lemma all_some_nth {A B} (f : A -> option B) l r k y : all_some (map f l) = Some r -> nth_error r k = Some y ->
+  exists x, nth_error l k = Some x /\ f x = Some y.
+Proof.
+  revert r k. induction l as [|a l IH]; intros r k H N; cbn in H.
+  - inversion H; subst. destruct k; discriminate.
+  - destruct (f a) as [b|] eqn:E; [|discriminate]. destruct (all_some (map f l)) as [r'|] eqn:E'; [|discriminate].
+    inversion H; subst. destruct k; cbn in N.
+    + inversion N; subst. exists a. split; [reflexivity | exact E].
+    + apply (IH _ _ eq_refl N).
+Qed.
+
+Lemma ojn_denote_cols f d k md : O2JSpec.ojn_denote f = Some d -> nth_error (os_maps d) k = Some md ->
+  Forall (fun h => (0 <= h_col h)%Z) (om_hits md) /\ Forall (fun h => (0 <= l_col h)%Z) (om_holds md).
+Proof.
+  unfold O2JSpec.ojn_denote. destruct (O2JSpec.denote_hdr _ _) as [h|]; [|discriminate].
+  destruct (all_some (map (O2JSpec.denote_level (oh_bpm h)) (O2JSpec.f_levels f))) as [ms|] eqn:E; [|discriminate].
+  intro H. inversion H; subst; clear H. cbn [os_maps]. intro N.
+  destruct (all_some_nth _ _ _ _ _ E N) as [pk [_ Hd]]. eapply denote_level_cols; exact Hd.
+Qed.
+
+Lemma Forall2_nth {A B} (R : A -> B -> Prop) a b k x y : Forall2 R a b -> nth_error a k = Some x -> nth_error b k = Some y -> R x y.
+Proof.
+  intro F. revert k. induction F; intros k N1 N2; destruct k; cbn in *; try discriminate.
+  - inversion N1; inversion N2; subst; assumption.
+  - eapply IHF; eassumption.
+Qed.
+Lemma Forall2_len {A B} (R : A -> B -> Prop) a b : Forall2 R a b -> length a = length b.
+Proof. induction 1; cbn; congruence. Qed.
+Lemma Forall_perm {A} (P : A -> Prop) a b : Permutation a b -> Forall P b -> Forall P a.
+Proof. intros Pm F. rewrite Forall_forall in *. intros x Hx. apply F. eapply Permutation_in; eassumption. Qed.
+
+(* ================= THE END-TO-END THEOREM for O2Jam -> Quaver =================
+   for every well-formed OJN file (any trailing bytes) and every difficulty k: the reader model returns a chart, the
+   converter (three casts + metadata of the declared types) turns it into a chart the Quaver writer accepts, and the
+   written document is well-formed, declares every metadata key, and denotes - by the format semantics of Quaver -
+   exactly the notes (kind, column), and tempo points the OJN file denotes - by the format semantics of O2Jam -, every
+   start and end and every tempo point within 1 ms (Quaver stores whole milliseconds), every bpm equal. *)
+Theorem o2j_to_qua_pipeline : Tables.c07.layout = O2JSpec.ref_layout ->
+  forall f trail meta, O2JSpec.wf_file f = true -> meta_okb false meta = true ->
+  exists o d, read_fixed (O2JSpec.encode_file f ++ trail) = Some o /\ O2JSpec.ojn_denote f = Some d
+    /\ length (os_maps o) = length (os_maps d)
+    /\ forall k mo md, nth_error (os_maps o) k = Some mo -> nth_error (os_maps d) k = Some md ->
+       exists c doc e, o2j_to_qua meta mo = Some c /\ Live.write c = Some doc
+         /\ wf_qua_docb doc = true /\ qua_denote doc = Some e /\ all_declared (QuaSpec.d_meta e) = true
+         /\ timeline_close 1 0 (tl_of_qua e) (tl_of_omap md).
+Proof.
+  intros L f trail meta Hwf Hmeta.
+  destruct (ojn_read_fixed_denotes L f trail Hwf) as [o [d [Hr [Hd [_ Hm]]]]].
+  exists o, d. split; [exact Hr|]. split; [exact Hd|]. split; [eapply Forall2_len; exact Hm|].
+  intros k mo md No Nd.
+  destruct (Forall2_nth _ _ _ _ _ _ Hm No Nd) as [Ph [Pl Eb]].
+  destruct (ojn_denote_cols _ _ _ _ Hd Nd) as [Ch Cl].
+  assert (Wf: wf_chartb false (q_chart meta mo) = true).
+  { apply q_chart_wf; [eapply Forall_perm; eassumption | eapply Forall_perm; eassumption | exact Hmeta]. }
+  destruct (qua_write_wf_denotes _ Wf) as [doc [e [a [Hw [Hwd [He [Ha [Hc Hall]]]]]]]].
+  exists (q_chart meta mo), doc, e. split; [apply o2j_to_qua_explicit|]. split; [exact Hw|]. split; [exact Hwd|].
+  split; [exact He|]. split; [exact Hall|].
+  assert (Hlen: length meta = length ref_meta_table).
+  { unfold meta_okb in Hmeta. symmetry. eapply all2_length. exact Hmeta. }
+  rewrite (q_chart_denote meta mo Hlen) in Ha. inversion Ha; subst a; clear Ha.
+  pose proof (tl_of_qua_close _ _ Hc) as T1.
+  pose proof (q_chart_timeline (map Some meta) mo) as T2.
+  pose proof (tl_of_omap_equiv _ _ Ph Pl Eb) as T3.
+  pose proof (timeline_close_trans _ _ _ _ _ _ _ T1 (timeline_close_trans _ _ _ _ _ _ _ T2 T3)) as T.
+  eapply timeline_close_weaken; [| |exact T]; lra.
+Qed.
+
+(* ---- the halves that are proved, in the form the composition uses ---- *)
+(* Quaver reader (C06 qua_read_denotes): the chart read denotes the document's timeline exactly *)
+Theorem qua_reader_half doc : wf_docb doc = true ->
+  exists c e a, Live.read doc = Some c /\ qua_denote doc = Some e /\ chart_denote c = Some a
+                /\ timeline_close 0 0 (tl_of_qua a) (tl_of_qua e).
+Proof.
+  intro H. destruct (qua_read_denotes doc H) as [c [e [a [Hr [He [Ha Heq]]]]]].
+  exists c, e, a. split; [exact Hr|]. split; [exact He|]. split; [exact Ha|].
+  apply timeline_close_sym. apply tl_of_qua_eq. exact Heq.
+Qed.
+(* Quaver writer (C06 qua_write_wf_denotes): well-formed document within 1 ms of the chart *)
+Theorem qua_writer_half c : wf_chartb false c = true ->
+  exists doc e a, Live.write c = Some doc /\ wf_qua_docb doc = true /\ qua_denote doc = Some e /\ chart_denote c = Some a
+                  /\ timeline_close 1 0 (tl_of_qua e) (tl_of_qua a).
+Proof.
+  intro H. destruct (qua_write_wf_denotes c H) as [doc [e [a [Hw [Hwf [He [Ha [Hc _]]]]]]]].
+  exists doc, e, a. split; [exact Hw|]. split; [exact Hwf|]. split; [exact He|]. split; [exact Ha|].
+  apply tl_of_qua_close. exact Hc.
+Qed.
+(* O2Jam reader (C07 ojn_read_fixed_denotes), per difficulty *)
+Theorem o2j_reader_half : Tables.c07.layout = O2JSpec.ref_layout -> forall f trail, O2JSpec.wf_file f = true ->
+  exists o d, read_fixed (O2JSpec.encode_file f ++ trail) = Some o /\ O2JSpec.ojn_denote f = Some d
+    /\ forall k mo md, nth_error (os_maps o) k = Some mo -> nth_error (os_maps d) k = Some md ->
+        timeline_close 0 0 (tl_of_omap mo) (tl_of_omap md)
+        /\ Forall (fun n => (0 <= tn_col n < 7)%Z) (tl_notes (tl_of_omap md)).
+Proof.
+  intros L f trail Hwf. destruct (ojn_read_fixed_denotes L f trail Hwf) as [o [d [Hr [Hd [_ Hm]]]]].
+  exists o, d. split; [exact Hr|]. split; [exact Hd|]. intros k mo md No Nd.
+  destruct (Forall2_nth _ _ _ _ _ _ Hm No Nd) as [Ph [Pl Eb]]. split; [apply tl_of_omap_equiv; assumption|].
+  clear - Hd Nd. revert Hd Nd. unfold O2JSpec.ojn_denote. destruct (O2JSpec.denote_hdr _ _) as [h|]; [|discriminate].
+  destruct (all_some (map (O2JSpec.denote_level (oh_bpm h)) (O2JSpec.f_levels f))) as [ms|] eqn:E; [|discriminate].
+  intro H. inversion H; subst; clear H. cbn [os_maps]. intro N.
+  destruct (all_some_nth _ _ _ _ _ E N) as [pk [_ Hdl]]. revert Hdl.
+  unfold O2JSpec.denote_level. destruct (all_some (map O2JSpec.pkg_tempos pk)) as [ts|]; [|discriminate].
+  intro H. injection H as <-. unfold tl_of_omap. cbn [tl_notes om_hits om_holds O2JSpec.columns map flat_map].
+  apply Forall_app. split; apply Forall_map; repeat (apply Forall_app; split); try apply Forall_nil.
+  all: first [ eapply Forall_impl; [|exact (proj1 (pair_col_cols _ _ _ None))]; cbv beta; intros x Ex; cbn [tn_col]; rewrite Ex; lia
+             | eapply Forall_impl; [|exact (proj2 (pair_col_cols _ _ _ None))]; cbv beta; intros x Ex; cbn [tn_col]; rewrite Ex; lia ].
+Qed.
+
+(* the generic composition: reader within (r1, e1) of the source denotation, converter carrying the timeline (up to the
+   documented column shift), writer within (r2, e2) of the chart: the written file is within (r1 + r2, e1 + e2) of the source *)
+Theorem pipeline_compose r1 e1 r2 e2 s src chart_a chart_b tgt :
+  timeline_close r1 e1 chart_a src -> timeline_close 0 0 chart_b (tl_shift s chart_a) -> timeline_close r2 e2 tgt chart_b ->
+  timeline_close (r1 + r2) (e1 + e2) tgt (tl_shift s src).
+Proof.
+  intros A B C. pose proof (timeline_close_shift _ _ s _ _ A) as A'.
+  pose proof (timeline_close_trans _ _ _ _ _ _ _ C (timeline_close_trans _ _ _ _ _ _ _ B A')) as T.
+  eapply timeline_close_weaken; [| |exact T]; lra.
+Qed.
+
+(* ================================================================== Part 4: witnesses of the defects found (real files) *)
+(* Each witness is a source file and the file the pinned tree's pipeline wrote for it (copied from the run of
+   corpus/C09/*.json), judged by the runner's oracle; the "repaired" twin is the same written file with the one field the
+   proposed repair changes. *)
+From RV Require Import Corr.RunC09.
+Definition w_osu_sm_offset_pinned : c09case := (C09 true (1#1000000) 4 0 0%nat (SOsu [[L[111;115;117;32;102;105;108;101;32;102;111;114;109;97;116;32;118;49;52]];[];[L[91;71;101;110;101;114;97;108;93]];[L[65;117;100;105;111;70;105;108;101;110;97;109;101;58;32;97;117;100;105;111;46;109;112;51]];[L[80;114;101;118;105;101;119;84;105;109;101;58;32;49;50;51;52;53]];[L[77;111;100;101;58;32;51]];[L[91;77;101;116;97;100;97;116;97;93]];[L[84;105;116;108;101;58;65;108;112;104;97]];[L[84;105;116;108;101;85;110;105;99;111;100;101;58;67;97;109;101;108;108;105;97;32;102;101;97;116;32;78;97;110;97;104;105;114;97]];[L[65;114;116;105;115;116;58;65;108;112;104;97]];[L[67;114;101;97;116;111;114;58;109;97;112;112;101;114;95;48;49]];[L[86;101;114;115;105;111;110;58;109;97;112;112;101;114;95;48;49]];[L[91;68;105;102;102;105;99;117;108;116;121;93]];[L[67;105;114;99;108;101;83;105;122;101;58;52]];[L[79;118;101;114;97;108;108;68;105;102;102;105;99;117;108;116;121;58;56]];[L[91;69;118;101;110;116;115;93]];[L[47;47;66;97;99;107;103;114;111;117;110;100;32;97;110;100;32;86;105;100;101;111;32;101;118;101;110;116;115]];[L[48;44;48;44;34;98;32;103;46;106;112;103;34;44;48;44;48]];[L[91;84;105;109;105;110;103;80;111;105;110;116;115;93]];[L[53;48;48;44;53;48;48;44;52;44;48;44;48;44;56;51;44;49;44;48]];[L[91;72;105;116;79;98;106;101;99;116;115;93]];[L[52;52;56;44;49;57;50;44;53;48;48;44;49;44;48;44;48;58;48;58;48;58;48;58]];[L[54;52;44;49;57;50;44;49;48;48;48;44;49;50;56;44;48;44;50;48;48;48;58;48;58;48;58;48;58;48;58]];[L[52;52;56;44;49;57;50;44;50;53;48;48;44;49;44;48;44;48;58;48;58;48;58;48;58]]] [0;1;2;3;4;5;1;6;7;8;9;10;11;1;12;13;14;1;15;16;17;1;18;19;1;1;20;21;22;23]) FSM 0%nat (Some (TSM [[L[35;84;73;84;76;69;58;65;108;112;104;97;59]];[L[35;83;85;66;84;73;84;76;69;58;59]];[L[35;65;82;84;73;83;84;58;65;108;112;104;97;59]];[L[35;84;73;84;76;69;84;82;65;78;83;76;73;84;58;67;97;109;101;108;108;105;97;32;102;101;97;116;32;78;97;110;97;104;105;114;97;59]];[L[35;83;85;66;84;73;84;76;69;84;82;65;78;83;76;73;84;58;59]];[L[35;65;82;84;73;83;84;84;82;65;78;83;76;73;84;58;59]];[L[35;71;69;78;82;69;58;59]];[L[35;67;82;69;68;73;84;58;109;97;112;112;101;114;95;48;49;59]];[L[35;66;65;78;78;69;82;58;59]];[L[35;66;65;67;75;71;82;79;85;78;68;58;98;32;103;46;106;112;103;59]];[L[35;76;89;82;73;67;83;80;65;84;72;58;59]];[L[35;67;68;84;73;84;76;69;58;59]];[L[35;77;85;83;73;67;58;97;117;100;105;111;46;109;112;51;59]];[L[35;79;70;70;83;69;84;58;45;48;46;48;59]];[L[35;66;80;77;83;58;48;46;48;61;49;50;48;46;48;59]];[L[35;83;84;79;80;83;58;59]];[L[35;83;65;77;80;76;69;83;84;65;82;84;58;49;50;46;51;52;53;59]];[L[35;83;65;77;80;76;69;76;69;78;71;84;72;58;48;46;48;49;59]];[L[35;68;73;83;80;76;65;89;66;80;77;58;59]];[L[35;83;69;76;69;67;84;65;66;76;69;58;89;69;83;59]];[L[35;66;71;67;72;65;78;71;69;83;58;59]];[L[35;70;71;67;72;65;78;71;69;83;58;59]];[L[47;47;45;45;45;45;45;45;100;97;110;99;101;45;115;105;110;103;108;101;91;49;32;69;97;115;121;93;45;45;45;45;45;45]];[L[35;78;79;84;69;83;58]];[L[32;32;32;32;32;100;97;110;99;101;45;115;105;110;103;108;101;58]];[L[32;32;32;32;32;109;97;112;112;101;114;95;48;49;58]];[L[32;32;32;32;32;69;97;115;121;58]];[L[32;32;32;32;32;49;58]];[L[32;32;32;32;32;48;46;48;44;48;46;48;44;48;46;48;44;48;46;48;44;48;46;48;58]];[L[48;48;48;49]];[L[50;48;48;48]];[L[48;48;48;48]];[L[51;48;48;48]];[L[44]];[L[59]];[]] [0;1;2;3;4;5;6;7;8;9;10;11;12;13;14;15;16;17;18;19;20;21;22;23;24;25;26;27;28;29;30;31;32;33;29;31;31;31;34;35;35])))%Z.
+Definition w_osu_sm_offset_repaired : c09case := (C09 true (1#1000000) 4 0 0%nat (SOsu [[L[111;115;117;32;102;105;108;101;32;102;111;114;109;97;116;32;118;49;52]];[];[L[91;71;101;110;101;114;97;108;93]];[L[65;117;100;105;111;70;105;108;101;110;97;109;101;58;32;97;117;100;105;111;46;109;112;51]];[L[80;114;101;118;105;101;119;84;105;109;101;58;32;49;50;51;52;53]];[L[77;111;100;101;58;32;51]];[L[91;77;101;116;97;100;97;116;97;93]];[L[84;105;116;108;101;58;65;108;112;104;97]];[L[84;105;116;108;101;85;110;105;99;111;100;101;58;67;97;109;101;108;108;105;97;32;102;101;97;116;32;78;97;110;97;104;105;114;97]];[L[65;114;116;105;115;116;58;65;108;112;104;97]];[L[67;114;101;97;116;111;114;58;109;97;112;112;101;114;95;48;49]];[L[86;101;114;115;105;111;110;58;109;97;112;112;101;114;95;48;49]];[L[91;68;105;102;102;105;99;117;108;116;121;93]];[L[67;105;114;99;108;101;83;105;122;101;58;52]];[L[79;118;101;114;97;108;108;68;105;102;102;105;99;117;108;116;121;58;56]];[L[91;69;118;101;110;116;115;93]];[L[47;47;66;97;99;107;103;114;111;117;110;100;32;97;110;100;32;86;105;100;101;111;32;101;118;101;110;116;115]];[L[48;44;48;44;34;98;32;103;46;106;112;103;34;44;48;44;48]];[L[91;84;105;109;105;110;103;80;111;105;110;116;115;93]];[L[53;48;48;44;53;48;48;44;52;44;48;44;48;44;56;51;44;49;44;48]];[L[91;72;105;116;79;98;106;101;99;116;115;93]];[L[52;52;56;44;49;57;50;44;53;48;48;44;49;44;48;44;48;58;48;58;48;58;48;58]];[L[54;52;44;49;57;50;44;49;48;48;48;44;49;50;56;44;48;44;50;48;48;48;58;48;58;48;58;48;58;48;58]];[L[52;52;56;44;49;57;50;44;50;53;48;48;44;49;44;48;44;48;58;48;58;48;58;48;58]]] [0;1;2;3;4;5;1;6;7;8;9;10;11;1;12;13;14;1;15;16;17;1;18;19;1;1;20;21;22;23]) FSM 0%nat (Some (TSM [[L[35;84;73;84;76;69;58;65;108;112;104;97;59]];[L[35;83;85;66;84;73;84;76;69;58;59]];[L[35;65;82;84;73;83;84;58;65;108;112;104;97;59]];[L[35;84;73;84;76;69;84;82;65;78;83;76;73;84;58;67;97;109;101;108;108;105;97;32;102;101;97;116;32;78;97;110;97;104;105;114;97;59]];[L[35;83;85;66;84;73;84;76;69;84;82;65;78;83;76;73;84;58;59]];[L[35;65;82;84;73;83;84;84;82;65;78;83;76;73;84;58;59]];[L[35;71;69;78;82;69;58;59]];[L[35;67;82;69;68;73;84;58;109;97;112;112;101;114;95;48;49;59]];[L[35;66;65;78;78;69;82;58;59]];[L[35;66;65;67;75;71;82;79;85;78;68;58;98;32;103;46;106;112;103;59]];[L[35;76;89;82;73;67;83;80;65;84;72;58;59]];[L[35;67;68;84;73;84;76;69;58;59]];[L[35;77;85;83;73;67;58;97;117;100;105;111;46;109;112;51;59]];[L[35;79;70;70;83;69;84;58;45;48;46;53;59]];[L[35;66;80;77;83;58;48;46;48;61;49;50;48;46;48;59]];[L[35;83;84;79;80;83;58;59]];[L[35;83;65;77;80;76;69;83;84;65;82;84;58;49;50;46;51;52;53;59]];[L[35;83;65;77;80;76;69;76;69;78;71;84;72;58;48;46;48;49;59]];[L[35;68;73;83;80;76;65;89;66;80;77;58;59]];[L[35;83;69;76;69;67;84;65;66;76;69;58;89;69;83;59]];[L[35;66;71;67;72;65;78;71;69;83;58;59]];[L[35;70;71;67;72;65;78;71;69;83;58;59]];[L[47;47;45;45;45;45;45;45;100;97;110;99;101;45;115;105;110;103;108;101;91;49;32;69;97;115;121;93;45;45;45;45;45;45]];[L[35;78;79;84;69;83;58]];[L[32;32;32;32;32;100;97;110;99;101;45;115;105;110;103;108;101;58]];[L[32;32;32;32;32;109;97;112;112;101;114;95;48;49;58]];[L[32;32;32;32;32;69;97;115;121;58]];[L[32;32;32;32;32;49;58]];[L[32;32;32;32;32;48;46;48;44;48;46;48;44;48;46;48;44;48;46;48;44;48;46;48;58]];[L[48;48;48;49]];[L[50;48;48;48]];[L[48;48;48;48]];[L[51;48;48;48]];[L[44]];[L[59]];[]] [0;1;2;3;4;5;6;7;8;9;10;11;12;13;14;15;16;17;18;19;20;21;22;23;24;25;26;27;28;29;30;31;32;33;29;31;31;31;34;35;35])))%Z.
+Definition w_qua_sm_offset_pinned : c09case := (C09 true (1#1000000) 4 0 0%nat (SQua (ym [(101,(ys [97;117;100;105;111;46;109;112;51]));(111,(ys [75;101;121;115;52]));(112,(ys [31481]));(113,(ys [65;108;112;104;97]));(116,(ys [67;97;109;101;108;108;105;97;32;102;101;97;116;32;78;97;110;97;104;105;114;97]));(117,(ys [65;108;112;104;97]));(103,(ys []));(102,(yi 12345));(22,(yl [(ym [(1,(yi 500));(5,(yf (120#1)))])]));(23,(yl [(ym [(1,(yi 400));(6,(yf (3#2)))])]));(21,(yl [(ym [(1,(yi 500));(2,(yi 4));(4,(yl []))]);(ym [(1,(yi 1000));(2,(yi 1));(4,(yl []));(3,(yi 2000))]);(ym [(1,(yi 2500));(2,(yi 4));(4,(yl []))])]))])) FSM 0%nat (Some (TSM [[L[35;84;73;84;76;69;58;31481;59]];[L[35;83;85;66;84;73;84;76;69;58;59]];[L[35;65;82;84;73;83;84;58;65;108;112;104;97;59]];[L[35;84;73;84;76;69;84;82;65;78;83;76;73;84;58;31481;59]];[L[35;83;85;66;84;73;84;76;69;84;82;65;78;83;76;73;84;58;59]];[L[35;65;82;84;73;83;84;84;82;65;78;83;76;73;84;58;65;108;112;104;97;59]];[L[35;71;69;78;82;69;58;59]];[L[35;67;82;69;68;73;84;58;67;97;109;101;108;108;105;97;32;102;101;97;116;32;78;97;110;97;104;105;114;97;59]];[L[35;66;65;78;78;69;82;58;59]];[L[35;66;65;67;75;71;82;79;85;78;68;58;59]];[L[35;76;89;82;73;67;83;80;65;84;72;58;59]];[L[35;67;68;84;73;84;76;69;58;59]];[L[35;77;85;83;73;67;58;97;117;100;105;111;46;109;112;51;59]];[L[35;79;70;70;83;69;84;58;45;48;46;52;59]];[L[35;66;80;77;83;58;48;46;48;61;49;50;48;46;48;59]];[L[35;83;84;79;80;83;58;59]];[L[35;83;65;77;80;76;69;83;84;65;82;84;58;49;50;46;51;52;53;59]];[L[35;83;65;77;80;76;69;76;69;78;71;84;72;58;48;46;48;49;59]];[L[35;68;73;83;80;76;65;89;66;80;77;58;59]];[L[35;83;69;76;69;67;84;65;66;76;69;58;89;69;83;59]];[L[35;66;71;67;72;65;78;71;69;83;58;59]];[L[35;70;71;67;72;65;78;71;69;83;58;59]];[L[47;47;45;45;45;45;45;45;100;97;110;99;101;45;115;105;110;103;108;101;91;49;32;69;97;115;121;93;45;45;45;45;45;45]];[L[35;78;79;84;69;83;58]];[L[32;32;32;32;32;100;97;110;99;101;45;115;105;110;103;108;101;58]];[L[32;32;32;32;32;65;108;112;104;97;58]];[L[32;32;32;32;32;69;97;115;121;58]];[L[32;32;32;32;32;49;58]];[L[32;32;32;32;32;48;46;48;44;48;46;48;44;48;46;48;44;48;46;48;44;48;46;48;58]];[L[48;48;48;49]];[L[50;48;48;48]];[L[48;48;48;48]];[L[51;48;48;48]];[L[44]];[L[59]];[]] [0;1;2;3;4;5;6;7;8;9;10;11;12;13;14;15;16;17;18;19;20;21;22;23;24;25;26;27;28;29;30;31;32;33;29;31;31;31;34;35;35])))%Z.
+Definition w_qua_sm_offset_repaired : c09case := (C09 true (1#1000000) 4 0 0%nat (SQua (ym [(101,(ys [97;117;100;105;111;46;109;112;51]));(111,(ys [75;101;121;115;52]));(112,(ys [31481]));(113,(ys [65;108;112;104;97]));(116,(ys [67;97;109;101;108;108;105;97;32;102;101;97;116;32;78;97;110;97;104;105;114;97]));(117,(ys [65;108;112;104;97]));(103,(ys []));(102,(yi 12345));(22,(yl [(ym [(1,(yi 500));(5,(yf (120#1)))])]));(23,(yl [(ym [(1,(yi 400));(6,(yf (3#2)))])]));(21,(yl [(ym [(1,(yi 500));(2,(yi 4));(4,(yl []))]);(ym [(1,(yi 1000));(2,(yi 1));(4,(yl []));(3,(yi 2000))]);(ym [(1,(yi 2500));(2,(yi 4));(4,(yl []))])]))])) FSM 0%nat (Some (TSM [[L[35;84;73;84;76;69;58;31481;59]];[L[35;83;85;66;84;73;84;76;69;58;59]];[L[35;65;82;84;73;83;84;58;65;108;112;104;97;59]];[L[35;84;73;84;76;69;84;82;65;78;83;76;73;84;58;31481;59]];[L[35;83;85;66;84;73;84;76;69;84;82;65;78;83;76;73;84;58;59]];[L[35;65;82;84;73;83;84;84;82;65;78;83;76;73;84;58;65;108;112;104;97;59]];[L[35;71;69;78;82;69;58;59]];[L[35;67;82;69;68;73;84;58;67;97;109;101;108;108;105;97;32;102;101;97;116;32;78;97;110;97;104;105;114;97;59]];[L[35;66;65;78;78;69;82;58;59]];[L[35;66;65;67;75;71;82;79;85;78;68;58;59]];[L[35;76;89;82;73;67;83;80;65;84;72;58;59]];[L[35;67;68;84;73;84;76;69;58;59]];[L[35;77;85;83;73;67;58;97;117;100;105;111;46;109;112;51;59]];[L[35;79;70;70;83;69;84;58;45;48;46;53;59]];[L[35;66;80;77;83;58;48;46;48;61;49;50;48;46;48;59]];[L[35;83;84;79;80;83;58;59]];[L[35;83;65;77;80;76;69;83;84;65;82;84;58;49;50;46;51;52;53;59]];[L[35;83;65;77;80;76;69;76;69;78;71;84;72;58;48;46;48;49;59]];[L[35;68;73;83;80;76;65;89;66;80;77;58;59]];[L[35;83;69;76;69;67;84;65;66;76;69;58;89;69;83;59]];[L[35;66;71;67;72;65;78;71;69;83;58;59]];[L[35;70;71;67;72;65;78;71;69;83;58;59]];[L[47;47;45;45;45;45;45;45;100;97;110;99;101;45;115;105;110;103;108;101;91;49;32;69;97;115;121;93;45;45;45;45;45;45]];[L[35;78;79;84;69;83;58]];[L[32;32;32;32;32;100;97;110;99;101;45;115;105;110;103;108;101;58]];[L[32;32;32;32;32;65;108;112;104;97;58]];[L[32;32;32;32;32;69;97;115;121;58]];[L[32;32;32;32;32;49;58]];[L[32;32;32;32;32;48;46;48;44;48;46;48;44;48;46;48;44;48;46;48;44;48;46;48;58]];[L[48;48;48;49]];[L[50;48;48;48]];[L[48;48;48;48]];[L[51;48;48;48]];[L[44]];[L[59]];[]] [0;1;2;3;4;5;6;7;8;9;10;11;12;13;14;15;16;17;18;19;20;21;22;23;24;25;26;27;28;29;30;31;32;33;29;31;31;31;34;35;35])))%Z.
+Definition w_sm_osu_cs_pinned : c09case := (C09 true (1#1000000) 7 0 0%nat (SSM [[L[35;67;82;69;68;73;84;58;109;97;112;112;101;114;95;48;49;59]];[L[35;66;65;67;75;71;82;79;85;78;68;58;73;110;115;97;110;101;32;55;75;59]];[L[35;79;70;70;83;69;84;58;48;59]];[L[35;66;80;77;83;58;48;46;48;48;48;61;49;50;48;46;48;48;48;59]];[L[35;83;84;79;80;83;58;59]];[L[35;83;65;77;80;76;69;83;84;65;82;84;58;49;50;46;53;59]];[L[35;83;69;76;69;67;84;65;66;76;69;58;89;69;83;59]];[L[47;47];R 45 15;L[32;107;98;55;45;115;105;110;103;108;101;32;45;32];R 45 16];[L[35;78;79;84;69;83;58]];[L[32;32;32;32;32;107;98;55;45;115;105;110;103;108;101;58]];[L[32;32;32;32;32;100;101;115;99;58]];[L[32;32;32;32;32;67;104;97;108;108;101;110;103;101;58]];[L[32;32;32;32;32;49;58]];[L[32;32;32;32;32;48;46;53;44;48;46;53;44;48;46;53;44;48;46;53;44;48;46;53;58]];[L[48;48;48;48;48;48;49]];[L[50;48;48;48;48;48;48]];[L[48;48;48;48;48;48;48]];[L[51;48;48;48;48;48;48]];[L[44]];[L[59]];[]] [0;1;2;3;4;5;6;7;8;9;10;11;12;13;14;15;16;17;18;14;16;16;16;19;20]) FOsu 0%nat (Some (TOsu [[L[111;115;117;32;102;105;108;101;32;102;111;114;109;97;116;32;118;49;52]];[];[L[91;71;101;110;101;114;97;108;93]];[L[65;117;100;105;111;70;105;108;101;110;97;109;101;58;32]];[L[65;117;100;105;111;76;101;97;100;73;110;58;32;48]];[L[80;114;101;118;105;101;119;84;105;109;101;58;32;49;50;53;48;48]];[L[67;111;117;110;116;100;111;119;110;58;32;48]];[L[83;97;109;112;108;101;83;101;116;58;32;78;111;110;101]];[L[83;116;97;99;107;76;101;110;105;101;110;99;121;58;32;48;46;55]];[L[77;111;100;101;58;32;51]];[L[76;101;116;116;101;114;98;111;120;73;110;66;114;101;97;107;115;58;32;48]];[L[83;112;101;99;105;97;108;83;116;121;108;101;58;32;48]];[L[87;105;100;101;115;99;114;101;101;110;83;116;111;114;121;98;111;97;114;100;58;32;49]];[L[91;69;100;105;116;111;114;93]];[L[68;105;115;116;97;110;99;101;83;112;97;99;105;110;103;58;32;52]];[L[66;101;97;116;68;105;118;105;115;111;114;58;32;52]];[L[71;114;105;100;83;105;122;101;58;32;56]];[L[84;105;109;101;108;105;110;101;90;111;111;109;58;32;48;46;51]];[L[91;77;101;116;97;100;97;116;97;93]];[L[84;105;116;108;101;58]];[L[84;105;116;108;101;85;110;105;99;111;100;101;58]];[L[65;114;116;105;115;116;58]];[L[65;114;116;105;115;116;85;110;105;99;111;100;101;58]];[L[67;114;101;97;116;111;114;58;109;97;112;112;101;114;95;48;49]];[L[86;101;114;115;105;111;110;58;67;104;97;108;108;101;110;103;101;32;49]];[L[83;111;117;114;99;101;58]];[L[84;97;103;115;58]];[L[66;101;97;116;109;97;112;73;68;58;48]];[L[66;101;97;116;109;97;112;83;101;116;73;68;58;45;49]];[L[91;68;105;102;102;105;99;117;108;116;121;93]];[L[72;80;68;114;97;105;110;82;97;116;101;58;53]];[L[67;105;114;99;108;101;83;105;122;101;58;52]];[L[79;118;101;114;97;108;108;68;105;102;102;105;99;117;108;116;121;58;53]];[L[65;112;112;114;111;97;99;104;82;97;116;101;58;53]];[L[83;108;105;100;101;114;77;117;108;116;105;112;108;105;101;114;58;49;46;52]];[L[83;108;105;100;101;114;84;105;99;107;82;97;116;101;58;49]];[L[91;69;118;101;110;116;115;93]];[L[47;47;66;97;99;107;103;114;111;117;110;100;32;97;110;100;32;86;105;100;101;111;32;101;118;101;110;116;115]];[L[48;44;48;44;34;73;110;115;97;110;101;32;55;75;34;44;48;44;48]];[L[47;47;66;114;101;97;107;32;80;101;114;105;111;100;115]];[L[47;47;83;116;111;114;121;98;111;97;114;100;32;76;97;121;101;114;32;48;32;40;66;97;99;107;103;114;111;117;110;100;41]];[L[47;47;83;116;111;114;121;98;111;97;114;100;32;76;97;121;101;114;32;49;32;40;70;97;105;108;41]];[L[47;47;83;116;111;114;121;98;111;97;114;100;32;76;97;121;101;114;32;50;32;40;80;97;115;115;41]];[L[47;47;83;116;111;114;121;98;111;97;114;100;32;76;97;121;101;114;32;51;32;40;70;111;114;101;103;114;111;117;110;100;41]];[L[47;47;83;116;111;114;121;98;111;97;114;100;32;76;97;121;101;114;32;52;32;40;79;118;101;114;108;97;121;41]];[L[47;47;83;116;111;114;121;98;111;97;114;100;32;83;111;117;110;100;32;83;97;109;112;108;101;115]];[L[91;84;105;109;105;110;103;80;111;105;110;116;115;93]];[L[45;48;46;48;44;53;48;48;46;48;44;52;44;48;44;48;44;48;44;49;44;48]];[L[91;72;105;116;79;98;106;101;99;116;115;93]];[L[56;51;50;44;49;57;50;44;48;44;49;44;48;44;48;58;48;58;48;58;48;58]];[L[54;52;44;49;57;50;44;53;48;48;44;49;50;56;44;48;44;49;53;48;48;58;48;58;48;58;48;58;48;58]];[L[56;51;50;44;49;57;50;44;50;48;48;48;44;49;44;48;44;48;58;48;58;48;58;48;58]]] [0;1;2;3;4;5;6;7;8;9;10;11;12;1;13;14;15;16;17;1;18;19;20;21;22;23;24;25;26;27;28;1;29;30;31;32;33;34;35;1;36;37;38;39;40;41;42;43;44;45;1;46;47;1;1;48;49;50;51])))%Z.
+Definition w_sm_osu_cs_repaired : c09case := (C09 true (1#1000000) 7 0 0%nat (SSM [[L[35;67;82;69;68;73;84;58;109;97;112;112;101;114;95;48;49;59]];[L[35;66;65;67;75;71;82;79;85;78;68;58;73;110;115;97;110;101;32;55;75;59]];[L[35;79;70;70;83;69;84;58;48;59]];[L[35;66;80;77;83;58;48;46;48;48;48;61;49;50;48;46;48;48;48;59]];[L[35;83;84;79;80;83;58;59]];[L[35;83;65;77;80;76;69;83;84;65;82;84;58;49;50;46;53;59]];[L[35;83;69;76;69;67;84;65;66;76;69;58;89;69;83;59]];[L[47;47];R 45 15;L[32;107;98;55;45;115;105;110;103;108;101;32;45;32];R 45 16];[L[35;78;79;84;69;83;58]];[L[32;32;32;32;32;107;98;55;45;115;105;110;103;108;101;58]];[L[32;32;32;32;32;100;101;115;99;58]];[L[32;32;32;32;32;67;104;97;108;108;101;110;103;101;58]];[L[32;32;32;32;32;49;58]];[L[32;32;32;32;32;48;46;53;44;48;46;53;44;48;46;53;44;48;46;53;44;48;46;53;58]];[L[48;48;48;48;48;48;49]];[L[50;48;48;48;48;48;48]];[L[48;48;48;48;48;48;48]];[L[51;48;48;48;48;48;48]];[L[44]];[L[59]];[]] [0;1;2;3;4;5;6;7;8;9;10;11;12;13;14;15;16;17;18;14;16;16;16;19;20]) FOsu 0%nat (Some (TOsu [[L[111;115;117;32;102;105;108;101;32;102;111;114;109;97;116;32;118;49;52]];[];[L[91;71;101;110;101;114;97;108;93]];[L[65;117;100;105;111;70;105;108;101;110;97;109;101;58;32]];[L[65;117;100;105;111;76;101;97;100;73;110;58;32;48]];[L[80;114;101;118;105;101;119;84;105;109;101;58;32;49;50;53;48;48]];[L[67;111;117;110;116;100;111;119;110;58;32;48]];[L[83;97;109;112;108;101;83;101;116;58;32;78;111;110;101]];[L[83;116;97;99;107;76;101;110;105;101;110;99;121;58;32;48;46;55]];[L[77;111;100;101;58;32;51]];[L[76;101;116;116;101;114;98;111;120;73;110;66;114;101;97;107;115;58;32;48]];[L[83;112;101;99;105;97;108;83;116;121;108;101;58;32;48]];[L[87;105;100;101;115;99;114;101;101;110;83;116;111;114;121;98;111;97;114;100;58;32;49]];[L[91;69;100;105;116;111;114;93]];[L[68;105;115;116;97;110;99;101;83;112;97;99;105;110;103;58;32;52]];[L[66;101;97;116;68;105;118;105;115;111;114;58;32;52]];[L[71;114;105;100;83;105;122;101;58;32;56]];[L[84;105;109;101;108;105;110;101;90;111;111;109;58;32;48;46;51]];[L[91;77;101;116;97;100;97;116;97;93]];[L[84;105;116;108;101;58]];[L[84;105;116;108;101;85;110;105;99;111;100;101;58]];[L[65;114;116;105;115;116;58]];[L[65;114;116;105;115;116;85;110;105;99;111;100;101;58]];[L[67;114;101;97;116;111;114;58;109;97;112;112;101;114;95;48;49]];[L[86;101;114;115;105;111;110;58;67;104;97;108;108;101;110;103;101;32;49]];[L[83;111;117;114;99;101;58]];[L[84;97;103;115;58]];[L[66;101;97;116;109;97;112;73;68;58;48]];[L[66;101;97;116;109;97;112;83;101;116;73;68;58;45;49]];[L[91;68;105;102;102;105;99;117;108;116;121;93]];[L[72;80;68;114;97;105;110;82;97;116;101;58;53]];[L[67;105;114;99;108;101;83;105;122;101;58;55]];[L[79;118;101;114;97;108;108;68;105;102;102;105;99;117;108;116;121;58;53]];[L[65;112;112;114;111;97;99;104;82;97;116;101;58;53]];[L[83;108;105;100;101;114;77;117;108;116;105;112;108;105;101;114;58;49;46;52]];[L[83;108;105;100;101;114;84;105;99;107;82;97;116;101;58;49]];[L[91;69;118;101;110;116;115;93]];[L[47;47;66;97;99;107;103;114;111;117;110;100;32;97;110;100;32;86;105;100;101;111;32;101;118;101;110;116;115]];[L[48;44;48;44;34;73;110;115;97;110;101;32;55;75;34;44;48;44;48]];[L[47;47;66;114;101;97;107;32;80;101;114;105;111;100;115]];[L[47;47;83;116;111;114;121;98;111;97;114;100;32;76;97;121;101;114;32;48;32;40;66;97;99;107;103;114;111;117;110;100;41]];[L[47;47;83;116;111;114;121;98;111;97;114;100;32;76;97;121;101;114;32;49;32;40;70;97;105;108;41]];[L[47;47;83;116;111;114;121;98;111;97;114;100;32;76;97;121;101;114;32;50;32;40;80;97;115;115;41]];[L[47;47;83;116;111;114;121;98;111;97;114;100;32;76;97;121;101;114;32;51;32;40;70;111;114;101;103;114;111;117;110;100;41]];[L[47;47;83;116;111;114;121;98;111;97;114;100;32;76;97;121;101;114;32;52;32;40;79;118;101;114;108;97;121;41]];[L[47;47;83;116;111;114;121;98;111;97;114;100;32;83;111;117;110;100;32;83;97;109;112;108;101;115]];[L[91;84;105;109;105;110;103;80;111;105;110;116;115;93]];[L[45;48;46;48;44;53;48;48;46;48;44;52;44;48;44;48;44;48;44;49;44;48]];[L[91;72;105;116;79;98;106;101;99;116;115;93]];[L[52;55;53;44;49;57;50;44;48;44;49;44;48;44;48;58;48;58;48;58;48;58]];[L[51;54;44;49;57;50;44;53;48;48;44;49;50;56;44;48;44;49;53;48;48;58;48;58;48;58;48;58;48;58]];[L[52;55;53;44;49;57;50;44;50;48;48;48;44;49;44;48;44;48;58;48;58;48;58;48;58]]] [0;1;2;3;4;5;6;7;8;9;10;11;12;1;13;14;15;16;17;1;18;19;20;21;22;23;24;25;26;27;28;1;29;30;31;32;33;34;35;1;36;37;38;39;40;41;42;43;44;45;1;46;47;1;1;48;49;50;51])))%Z.
+
+Lemma witness_osu_sm_offset :
+  wf_ok (check w_osu_sm_offset_pinned) = true /\ spec_ok (check w_osu_sm_offset_pinned) = false
+  /\ spec_ok (check w_osu_sm_offset_repaired) = true /\ corr_ok (check w_osu_sm_offset_repaired) = true.
+Proof. vm_compute. auto. Qed.
+Lemma witness_qua_sm_offset :
+  wf_ok (check w_qua_sm_offset_pinned) = true /\ spec_ok (check w_qua_sm_offset_pinned) = false
+  /\ spec_ok (check w_qua_sm_offset_repaired) = true /\ corr_ok (check w_qua_sm_offset_repaired) = true.
+Proof. vm_compute. auto. Qed.
+Lemma witness_sm_osu_circle_size :
+  wf_ok (check w_sm_osu_cs_pinned) = true /\ spec_ok (check w_sm_osu_cs_pinned) = false
+  /\ spec_ok (check w_sm_osu_cs_repaired) = true /\ corr_ok (check w_sm_osu_cs_repaired) = true.
+Proof. vm_compute. auto. Qed.
